@@ -25,17 +25,27 @@ _scratch: Path | None = None
 
 
 def scratch() -> Path:
-    """Per-process scratch directory outside /repo and /verif, removed at exit.
-    TMPDIR is pointed at it because the generator appends to
-    $TMPDIR/pyopenapi_gen_file_write_debug.log on every file write."""
+    """Scratch directory outside /repo and /verif.  The top-level check process creates it, exports it as
+    VERIF_SCRATCH_DIR (worker processes and probes reuse it) and removes it at exit.  TMPDIR is pointed at it
+    because the generator appends to $TMPDIR/pyopenapi_gen_file_write_debug.log on every file write."""
     global _scratch
     if _scratch is None:
-        base = Path(os.environ.get("VERIF_SCRATCH", "/tmp"))
-        base.mkdir(parents=True, exist_ok=True)
-        _scratch = Path(tempfile.mkdtemp(prefix="pogvf-", dir=str(base)))
+        inherited = os.environ.get("VERIF_SCRATCH_DIR")
+        if inherited and Path(inherited).is_dir():
+            _scratch = Path(inherited)
+        else:
+            base = Path(os.environ.get("VERIF_SCRATCH", "/tmp"))
+            base.mkdir(parents=True, exist_ok=True)
+            _scratch = Path(tempfile.mkdtemp(prefix="pogvf-", dir=str(base)))
+            os.environ["VERIF_SCRATCH_DIR"] = str(_scratch)
+            owner = os.getpid()
+
+            def _cleanup(p=_scratch, owner=owner):
+                if os.getpid() == owner:
+                    shutil.rmtree(p, ignore_errors=True)
+            atexit.register(_cleanup)
         os.environ["TMPDIR"] = str(_scratch)
         tempfile.tempdir = str(_scratch)
-        atexit.register(lambda: shutil.rmtree(_scratch, ignore_errors=True))
     return _scratch
 
 
